@@ -149,7 +149,12 @@ def part_b(ctx):
     for j in sjobs:
         evs = sev.get(j["id"], [])
         oe = stdtrace.end_event(oev[meta[j["id"]]["oracle_job"]])
-        x = stdtrace.expect_from(oe)
+        if stdinputs.KIND.get(meta[j["id"]]["dec"]) == "token":
+            # a token decoder may split one source span into several `continued` tokens at a buffer boundary (documented):
+            # the token sequence is not an output byte stream; compare status and consumption (= total token length)
+            x = stdtrace.expect_from(oe, fields=("st", "cls", "in_total"))
+        else:
+            x = stdtrace.expect_from(oe)
         x["j"] = j["id"]
         if evs and evs[0].get("k") == "start":
             evs = [evs[0], x] + evs[1:]
